@@ -31,8 +31,11 @@
  *              return
  *           C17.bp.dont_dedup           DONT_DEDUPLICATE ==> no search at all
  *           C17.bp.frag_block_inherits  the fragment block is flagged
- *              DONT_COMPRESS iff one of its fragments is; no other user flag of
- *              a fragment leaks into the block
+ *              DONT_COMPRESS iff one of its fragments is, and IGNORE_SPARSE iff
+ *              one of its fragments is (a [nosparse] tail must be stored, so
+ *              the block that carries it must not be replaced by a hole -
+ *              C17.bp.nosparse_tail, fix in process_completed_fragment); no
+ *              other user flag of a fragment leaks into the block
  */
 #include "bp_env.h"
 
@@ -415,16 +418,19 @@ void harness(void)
 				     g_fb.b.size == fb_size0 + frag_size &&
 				     g_fb.b.index == fb_index0,
 				     "C08.frag.append_in_bounds");
-			/* one uncompressed fragment makes the whole block
-			 * uncompressed; nothing else is inherited */
+			/* one uncompressed / nosparse fragment makes the whole
+			 * block uncompressed / non-sparse; nothing else is
+			 * inherited */
 			VERIF_ASSERT(g_fb.b.flags == (fb_flags0 |
-				     (frag_flags & SQFS_BLK_DONT_COMPRESS)),
+				     (frag_flags & (SQFS_BLK_DONT_COMPRESS |
+						    SQFS_BLK_IGNORE_SPARSE))),
 				     "C17.bp.frag_block_inherits");
 			exp_index = fb_index0;
 			exp_offset = fb_size0;
 		} else {
 			VERIF_ASSERT(g_frag.b.flags ==
-				     ((frag_flags & SQFS_BLK_DONT_COMPRESS) |
+				     ((frag_flags & (SQFS_BLK_DONT_COMPRESS |
+						     SQFS_BLK_IGNORE_SPARSE)) |
 				      SQFS_BLK_FRAGMENT_BLOCK),
 				     "C17.bp.frag_block_inherits");
 			/* became the new fragment block */
